@@ -782,13 +782,14 @@ func (fr *Frame) callCommon(cc *ssa.CallCommon, args []Val, fv Val, res ssa.Valu
 		}
 	}
 	if callee == nil {
-		dynName := "dynamic"
-		if u, ok := cc.Value.(*ssa.UnOp); ok {
-			if g, ok := u.X.(*ssa.Global); ok {
-				dynName = g.Pkg.Pkg.Path() + "." + g.Name() // call through a package-level function variable
-			}
-		}
+		dynName := dynCallName(cc)
 		fr.assertAtCall(dynName, args, cc.Signature())
+		if sp := e.specs.Funcs[dynName]; sp != nil {
+			// an assumed contract for calls through this struct field / variable (e.g. callbacks of a dependency)
+			sp.Used = true
+			e.assume("calls through " + dynName + " follow the assumed contract given for it")
+			return fr.applyContract(sp, dynName, cc.Signature(), args, false, resT)
+		}
 		e.havocCallees["<dynamic call in "+fr.prefix+">"] = true
 		return fr.havocCall("dynamic", resT, nil)
 	}
@@ -1651,12 +1652,7 @@ func (fr *Frame) sourceOrdinal(sel string) int {
 			} else if f := cc.StaticCallee(); f != nil {
 				name = f.String()
 			} else {
-				name = "dynamic"
-				if u, ok := cc.Value.(*ssa.UnOp); ok {
-					if g, ok := u.X.(*ssa.Global); ok {
-						name = g.Pkg.Pkg.Path() + "." + g.Name()
-					}
-				}
+				name = dynCallName(cc)
 			}
 			if calleeMatches(name, sel) {
 				all = append(all, cp{in, int(in.Pos()), seq})
@@ -1963,4 +1959,50 @@ func dropLastresult(x *Expr) *Expr {
 		return &c
 	}
 	return nil
+}
+
+// name under which a call through a function value is known to assert-at / lastresult clauses:
+// a package-level variable (pkg/path.Name), a struct field (field.<Name>), or a local variable (its source name)
+func dynCallName(cc *ssa.CallCommon) string {
+	v := cc.Value
+	if u, ok := v.(*ssa.UnOp); ok {
+		switch x := u.X.(type) {
+		case *ssa.Global:
+			return x.Pkg.Pkg.Path() + "." + x.Name()
+		case *ssa.FieldAddr:
+			if st, ok := x.X.Type().Underlying().(*types.Pointer).Elem().Underlying().(*types.Struct); ok {
+				return "field." + st.Field(x.Field).Name()
+			}
+		case *ssa.Alloc:
+			if x.Comment != "" {
+				return "var." + x.Comment
+			}
+		}
+	}
+	if f, ok := v.(*ssa.Field); ok {
+		if st, ok := f.X.Type().Underlying().(*types.Struct); ok {
+			return "field." + st.Field(f.Field).Name()
+		}
+	}
+	if n := localValueName(cc); n != "" {
+		return "var." + n
+	}
+	return "dynamic"
+}
+
+// source name of an SSA value bound to a local variable by a DebugRef (e.g. `cancel, staled, err := f()`)
+func localValueName(cc *ssa.CallCommon) string {
+	v := cc.Value
+	refs := v.Referrers()
+	if refs == nil {
+		return ""
+	}
+	for _, r := range *refs {
+		if d, ok := r.(*ssa.DebugRef); ok && !d.IsAddr {
+			if id, ok := d.Expr.(*ast.Ident); ok {
+				return id.Name
+			}
+		}
+	}
+	return ""
 }
